@@ -79,7 +79,7 @@ def gen_history_case(ctx):
     with util.options(bytealigned=c['oba'], lsb0=False):
         for _ in range(rng.choice([1, 1, 2, 3])):
             op, a = _mut.gen_step(rng, len(m), HIST_OPS, max_len=6000)
-            if _mut.uses_self(a):
+            if _mut.uses_self(a) or _mut.uses_failing(a):
                 continue
             try:
                 m, _r = M.apply(m, op, _mut.model_args(m, op, a))
